@@ -161,23 +161,43 @@ def freeze(v):
 _CACHE = {}
 
 
+_USED = {}
+
+
 def checked_fill(key, had, coords, flag, data, stored, model, rng):
     """compare one stored array with the Lean fill; memoised on the exact
-    inputs (the tagged inputs are deterministic, so histories repeat them)"""
+    inputs the real method reads (the tagged inputs are deterministic, so
+    histories repeat them)"""
     n = len(coords)
-    ck = (key, had, n, flag, tuple(sorted((k, freeze(v)) for k, v in data.items())), freeze(stored))
-    if ck not in _CACHE:
-        T, anom = line_oracle(key, coords, flag, data)
-        _CACHE[ck] = anom[0] if anom else compare_fill(stored, T, model, n, RANK[key], rng)
-    return _CACHE[ck]
+    used = _USED.get((key, had))
+    ck = None
+    if used is not None and all(k in data for k in used):
+        ck = (key, had, n, flag, tuple((k, freeze(data[k])) for k in sorted(used)), freeze(stored))
+        if ck in _CACHE:
+            return _CACHE[ck]
+    seen = set()
+    T, anom = line_oracle(key, coords, flag, data, seen)
+    _USED[(key, had)] = set(seen) | _USED.get((key, had), set())
+    res = anom[0] if anom else compare_fill(stored, T, model, n, RANK[key], rng)
+    used = _USED[(key, had)]
+    if all(k in data for k in used):
+        _CACHE[(key, had, n, flag, tuple((k, freeze(data[k])) for k in sorted(used)), freeze(stored))] = res
+    return res
 
 
-def line_oracle(key, coords, flag, data):
+def line_oracle(key, coords, flag, data, seen=None):
     """{q: value the real formula line of `key` computes at index tuple q}, by
     running the real method (on the given `data`) with a never-done `done`.
-    Returns (T, anomalies)."""
+    Returns (T, anomalies); `seen` collects the keys the method looks up."""
     mod = core_module()
-    inst = mod.AurelCoreSymbolic(list(coords), verbose=False, simplify=flag)
+    base = mod.AurelCoreSymbolic
+
+    class Logged(base):
+        def __getitem__(self, k):
+            if seen is not None:
+                seen.add(k)
+            return base.__getitem__(self, k)
+    inst = Logged(list(coords), verbose=False, simplify=flag)
     inst.data = dict(data)
     log = []
     with never_done(log):
@@ -313,7 +333,7 @@ def observed_class(rec):
     return Obs
 
 
-def history_orders(ctx, npairs, nrandom):
+def history_orders(ctx, npairs, nrandom, maxtail=8):
     """request orders: ordered 2-key prefixes (all 90, or a sample) each followed
     by a random tail, plus full random permutations"""
     rng = ctx.rng
@@ -329,7 +349,7 @@ def history_orders(ctx, npairs, nrandom):
     for a, b in pairs:
         tail = [k for k in KEYS if k not in (a, b)]
         rng.shuffle(tail)
-        out.append([a, b] + tail[:rng.randint(0, len(tail))])
+        out.append([a, b] + tail[:rng.randint(0, min(maxtail, len(tail)))])
     for _ in range(nrandom):
         p = list(KEYS)
         rng.shuffle(p)
@@ -419,7 +439,7 @@ def correspondence(ctx):
     plan = []
     for order in history_orders(ctx, 90, 10 if thorough else 4):
         plan.append((2, False, order, True))
-    for order in history_orders(ctx, 90 if thorough else 6, 1):
+    for order in history_orders(ctx, 90 if thorough else 3, 1 if thorough else 0, maxtail=8 if thorough else 2):
         plan.append((2, True, order, True))
     for order in history_orders(ctx, 90 if thorough else 8, 2):
         plan.append((3, False, order, True))
